@@ -55,27 +55,37 @@ class Pair:
     bound_param: str | None  # parameter that bounds the queue (for LINEAR)
 
 
+PER_RUN: dict = {}
+
+
 def _class_pair(ck, rel, clsname, iter_name, start='_start', fin='_finalize') -> Pair:
     cls = ck.repo.cls(rel, clsname)
     st = cls.method(start)
     qattr = flag = worker = prod = None
     qctor = None
-    for n in walk_shallow_func(st.node):
-        if isinstance(n, ast.Assign) and len(n.targets) == 1 and isinstance(n.value, ast.Call):
-            t = dotted(n.targets[0])
-            d = call_dotted(n.value) or ''
-            last = d.split('.')[-1]
-            if t and t.startswith('self.'):
-                if fifo.QUEUE_CTORS.get(d) or fifo.QUEUE_CTORS.get(last):
-                    qattr, qctor = t, n.value
-                elif last == 'Event':
-                    flag = t
-                elif last == 'Thread':
-                    worker = t
-                    tgt = kwarg(n.value, 'target')
-                    if tgt is not None and dotted(tgt) and dotted(tgt).startswith('self.'):
-                        prod = cls.method(dotted(tgt).split('.', 1)[1])
+    created_in = {}
+    holders = [st] + ([cls.method('__init__')] if '__init__' in {m.name for m in cls.methods()} else [])
+    for holder in holders:
+        for n in walk_shallow_func(holder.node):
+            if isinstance(n, ast.Assign) and len(n.targets) == 1 and isinstance(n.value, ast.Call):
+                t = dotted(n.targets[0])
+                d = call_dotted(n.value) or ''
+                last = d.split('.')[-1]
+                if t and t.startswith('self.'):
+                    if (fifo.QUEUE_CTORS.get(d) or fifo.QUEUE_CTORS.get(last)) and qattr is None:
+                        qattr, qctor = t, n.value
+                        created_in[t] = (holder, n)
+                    elif last == 'Event' and flag is None:
+                        flag = t
+                        created_in[t] = (holder, n)
+                    elif last == 'Thread' and worker is None:
+                        worker = t
+                        created_in[t] = (holder, n)
+                        tgt = kwarg(n.value, 'target')
+                        if tgt is not None and dotted(tgt) and dotted(tgt).startswith('self.'):
+                            prod = cls.method(dotted(tgt).split('.', 1)[1])
     ck.need(qattr and flag and worker and prod, f'{cls.qualname}.{start}: queue / stop flag / worker thread not identified')
+    PER_RUN[cls.qualname] = (cls, st, created_in)
     # async producers: the thread target only runs `asyncio.run(main())`
     loops = [n for n in walk_shallow_func(prod.node) if isinstance(n, (ast.For, ast.AsyncFor))]
     if not loops:
@@ -273,7 +283,7 @@ def check_vocabulary(ck: Checker, rid: str, p: Pair):
                 ii = is_isinstance(t)
                 if ii:
                     inst_sets.append((n, ii[1]))
-                if isinstance(t, ast.Compare) and isinstance(t.ops[0], ast.Eq) and isinstance(t.comparators[0], ast.Name):
+                if isinstance(t, ast.Compare) and isinstance(t.ops[0], (ast.Eq, ast.Is)) and isinstance(t.comparators[0], ast.Name):
                     eq_names.add(t.comparators[0].id)
                     raise_get_after[t.comparators[0].id] = _raises_next_item(n.body)
     probs = []
@@ -324,7 +334,7 @@ def check_vocabulary(ck: Checker, rid: str, p: Pair):
                     alias = [k for k, v in amap.items() if v == marker] + [marker]
                     if not any(raise_get_after.get(a) for a in alias):
                         probs.append(f'consumer does not `raise <queue>.get()` on marker `{marker}`')
-        detail.append(f'{sorted(set(consts))}↔`==` tests')
+        detail.append(f'{sorted(set(consts))}↔marker tests')
     ck.ob(rid, p.cons, (p.cons.node.lineno, f'{p.label} vocabulary'), not probs, '; '.join(probs) if probs else 'terminal vocabulary agrees: ' + ', '.join(detail))
 
 
@@ -673,6 +683,50 @@ def check_no_prefetch(ck: Checker, rid: str):
     ck.ob(rid, f, calls[0], not bad, 'every pull of the sync source is awaited where it is started: nothing is in flight while the generator is suspended at its yield' if not bad else f'L{bad[0].lineno}: the pull `{norm_text(bad[0])[:60]}` is started without being awaited in place (kept for later): it runs ahead of the consumer — after an early stop a helper thread is still inside the source, one element beyond those delivered is taken and lost, and the event loop cannot shut its executor down')
 
 
+
+MARKER_NAMES = ('FINISHED', 'STOPPED')
+
+
+def check_marker_identity(ck: Checker, rid: str):
+    """The end / failure markers of the in-process relays are module constants that travel through a queue of the same
+    process, next to the user's elements.  They are told apart from elements by identity: `z == FINISHED` asks the
+    *element's* `__eq__` (str.__eq__ declines a non-str and Python falls back to the reflected call), so an element
+    that equals everything (mock.ANY) ends the stream early and silently, and an array-like element whose `==` is
+    element-wise makes the test raise."""
+    n_sites = 0
+    for rel in (STREAMER, STREAMER_ASYNC):
+        mod = ck.repo.module(rel)
+        consts = {t.id for st in mod.tree.body if isinstance(st, ast.Assign) for t in st.targets if isinstance(t, ast.Name) and t.id in MARKER_NAMES}
+        if not consts:
+            continue
+        for f in mod.functions.values():
+            amap = {c: c for c in consts}
+            for n in walk_shallow_func(f.node):
+                if isinstance(n, ast.Assign) and len(n.targets) == 1 and isinstance(n.targets[0], ast.Name) and isinstance(n.value, ast.Name) and n.value.id in consts:
+                    amap[n.targets[0].id] = n.value.id
+            for n in walk_shallow_func(f.node):
+                if isinstance(n, ast.Compare) and len(n.ops) == 1:
+                    sides = [n.left, n.comparators[0]]
+                    mk = [amap[x.id] for x in sides if isinstance(x, ast.Name) and x.id in amap]
+                    if not mk:
+                        continue
+                    n_sites += 1
+                    ident = isinstance(n.ops[0], (ast.Is, ast.IsNot))
+                    ck.ob(rid, f, n, ident, f'`{norm_text(n)}`: the marker {mk[0]} is recognised by identity' if ident else f'`{norm_text(n)}` compares a stream element with the marker {mk[0]} by equality: the element\'s own `__eq__` decides — an element equal to everything (mock.ANY) ends the stream early and silently, an array-like element (element-wise `==`) makes the test raise; the marker never leaves the process, identity is exact')
+    ck.need(n_sites >= 5, f'marker identity: only {n_sites} marker comparisons found')
+
+
+def check_per_run_state(ck: Checker, rid: str):
+    """The hand-off queue, the stop flag and the worker thread of a relay class belong to one consumption: they are
+    created by `_start`, which the iterator calls before anything else.  State created by the constructor is shared by
+    every pass over the same Stream object: what an aborted pass left behind (buffered elements, the end marker, a set
+    stop flag) is then seen by the next pass, which ends at once or replays stale elements."""
+    pairs(ck)
+    for qual, (cls, st, created_in) in PER_RUN.items():
+        bad = [f'`{attr}` is created in {holder.qualname} (L{n.lineno})' for attr, (holder, n) in created_in.items() if holder is not st]
+        ck.ob(rid, st, (st.node.lineno, f'{qual} per-run state'), not bad, '; '.join(bad) + ': state of one consumption outlives it — after an early stop or a failure the next pass over the same stream finds the leftovers' if bad else f'{sorted(created_in)} are created by `{st.name}` for each consumption')
+
+
 def run(ck: Checker):
     ck.rule('C05-6', 'async producers are driven by asyncio.run (or an explicit shutdown_asyncgens on every exit): async generators of the upstream chain left suspended by an early stop are finalised (PAIR)', minimum=2)
     ck.rule('C05-1', 'terminal item on every producer exit: exhaustion, stop flag, Exception and StopRequested from source / function / preprocessor (EXITS)', minimum=5)
@@ -685,7 +739,10 @@ def run(ck: Checker):
         check_vocabulary(ck, 'C05-2', p)
         check_stop_flag(ck, 'C05-3', p)
         check_join_safety(ck, 'C05-4', p)
+    check_marker_identity(ck, 'C05-2')
     check_helpers_released(ck, 'C05-5')
+    ck.rule('C05-9', 'per-consumption state: the hand-off queue, stop flag and worker thread of Buffer / AsyncBuffer / SyncIter are created when an iteration starts, never by the constructor (leftovers of an aborted pass are not seen by the next) (ORIGIN)', minimum=3)
+    check_per_run_state(ck, 'C05-9')
     check_async_driver(ck, 'C05-6')
     ck.rule('C05-7', 'no source pull is in flight while a stream generator is suspended: the sync-to-async adapter awaits each `run_in_executor(None, next, source)` in the statement that starts it — a pull started ahead of the consumer\'s request is still running in a helper thread after an early stop (one element is taken and lost, the source generator cannot be closed, the default executor cannot shut down)')
     check_no_prefetch(ck, 'C05-7')
